@@ -7,7 +7,7 @@ import mpmath
 from mpmath import mpf
 
 from common import U, f, fr, main, ratio
-from c04 import K, decode, domain, hermite, kruger, pder, peval
+from c04 import K, NotFinite, decode, domain, hermite, kruger, pder, peval
 from logref import fmp
 
 mpmath.mp.prec = 600
@@ -39,7 +39,11 @@ def mp_peval(C, x):
 
 
 def check(mon, ev):
-    xs, ys, ends, co = decode(ev)
+    try:
+        xs, ys, ends, co = decode(ev)
+    except NotFinite:
+        mon.count("out_of_domain")
+        return
     mon.case(ev["h"])
     wit = lambda extra=None: dict({"x": ev["x"], "y": ev["y"], "x_v": xs, "y_v": ys, "coefficients": ev["co"][:8], "fam": [ev["xf"], ev["yf"]]}, **(extra or {}))
     X, Y = [fr(v) for v in xs], [fr(v) for v in ys]
